@@ -190,6 +190,83 @@ func init() {
 				}
 				return true
 			})
+			// statement order from `allowed :=` on: the registration section (lock … unlock), the
+			// deferred clean-up, the per-URI subscribes, THEN the acknowledgement, then the handler
+			// parks. This is the order of the model's labels `listen` and `listenAck`
+			// (ack_after_registration).
+			seq := []string{}
+			started := false
+			for _, st := range fd.Body.List {
+				src := c.Src(st)
+				if !started {
+					if strings.HasPrefix(src, "allowed := s.allowedSubscriptions(") {
+						started = true
+						seq = append(seq, "allowed")
+					}
+					continue
+				}
+				switch x := st.(type) {
+				case *ast.DeferStmt:
+					seq = append(seq, "defer-cleanup")
+					continue
+				case *ast.RangeStmt:
+					if c.Src(x.X) == "allowed.ResourceSubscriptions" {
+						b := c.Src(x.Body)
+						t := "subscribe-uris:"
+						if strings.Contains(b, "s.subscribe(ctx,") {
+							t += "subscribe"
+						}
+						if strings.Contains(b, "defer s.unsubscribe(ctx,") {
+							t += ",defer-unsubscribe"
+						}
+						seq = append(seq, t)
+						continue
+					}
+				case *ast.ReturnStmt:
+					seq = append(seq, "return")
+					continue
+				case *ast.IfStmt:
+					cond := c.Src(x.Cond)
+					done := false
+					for w, k := range wantKind {
+						if cond != "allowed."+w {
+							continue
+						}
+						for tn, tk := range tableKind {
+							if strings.Contains(c.Src(x.Body), "s."+tn+"[req.Session] = requestID") {
+								seq = append(seq, "register:"+k+"->"+tk)
+								done = true
+							}
+						}
+					}
+					if done {
+						continue
+					}
+					if x.Init != nil && strings.Contains(c.Src(x.Init), "req.Session.notifySubscriptionAcked(ctx, ackParams)") {
+						seq = append(seq, "ack")
+						continue
+					}
+					if strings.Contains(c.Src(x.Body), "<-ctx.Done()") {
+						seq = append(seq, "park")
+						continue
+					}
+				}
+				switch {
+				case strings.HasPrefix(src, "verifYield("):
+				case src == "s.mu.Lock()":
+					seq = append(seq, "lock")
+				case src == "s.mu.Unlock()":
+					seq = append(seq, "unlock")
+				case strings.HasPrefix(src, "ackParams := &SubscriptionsAcknowledgedParams{"):
+					seq = append(seq, "ack-params")
+				default:
+					if len(src) > 60 {
+						src = src[:60]
+					}
+					seq = append(seq, "other:"+src)
+				}
+			}
+			c.Fact("notify.subscriptionsListen", seq)
 		} else {
 			c.Errf("notify: subscriptionsListen not found")
 		}
